@@ -4,6 +4,7 @@ Property theorems about `JinnsModel/Boundary.lean`, for every network (value and
 oracles), boundary function, weight, border batch (any number of rows) and specification.
 -/
 import JinnsModel.Boundary
+import JinnsModel.HoldsC04
 import JinnsProofs.C03
 import Mathlib.Tactic.Ring
 import Mathlib.Tactic.FieldSimp
@@ -23,6 +24,9 @@ open Jinns.LossTerms
     xmin, xmax, ymin, ymax, …: `−e_{k/2}` on a "min" facet, `+e_{k/2}` on a "max" facet -/
 def outward (d k : Nat) : List ℚ :=
   (List.range d).map fun j => if j = k / 2 then (if k % 2 = 0 then -1 else 1) else 0
+
+/-- `Holds.C04` is stated with the same definition of the outward normal -/
+theorem outward_eq_holds : outward = Jinns.Holds.c04Outward := rfl
 
 /-- **the code's normal tables are the outward normals**, in 1-D (`xmin, xmax`) and 2-D
     (`xmin, xmax, ymin, ymax`). -/
